@@ -236,6 +236,17 @@ Definition dispatch_hash (c : mcfg) (op : tok) (args : list tok) : option (list 
         end
     | _ => Some bad
     end
+  else if is_sym op "displayf" then
+    (* Display under formatter flags ({:>80}, {:.10}, {:^150}, {:*<5}, {:08}): the implementation writes the text with
+       write_str, which ignores width, fill, alignment and precision -- five times the same text *)
+    match args with
+    | [vt; TB bin] =>
+        match variant_of vt with
+        | Some v => Some (with_hash c v bin (fun h => out_or (display hc v h) (fun s => [TB s; TB s; TB s; TB s; TB s]) (fun _ => bad)))
+        | _ => Some bad
+        end
+    | _ => Some bad
+    end
   else if is_sym op "valid" then
     match args with
     | [vt; TB bin] =>
